@@ -22,7 +22,7 @@ UNITS = [src('base', 'src', 'ProblemDefinition.cpp'), src('base', 'src', 'Optimi
          src(G + 'cforest/src/CForest.cpp'), src(G + 'AnytimePathShortening.cpp'), src(G + 'rrt/src/LBTRRT.cpp'),
          src(G + 'rrt/src/LazyLBTRRT.cpp'), src(G + 'sst/src/SST.cpp'), src(G + 'fmt/src/FMT.cpp'), src(G + 'fmt/src/BFMT.cpp'),
          src(G + 'informedtrees/bitstar/src/Vertex.cpp'), src(G + 'informedtrees/aitstar/src/Vertex.cpp'),
-         src(G + 'informedtrees/eitstar/src/Vertex.cpp'), src(G + 'informedtrees/eitstar/src/State.cpp')]
+         src(G + 'informedtrees/eitstar/src/Vertex.cpp'), src(G + 'informedtrees/eitstar/src/State.cpp'), src('control/planners/sst/src/SST.cpp')]
 
 OO = 'ompl::base::OptimizationObjective::'
 
@@ -510,7 +510,8 @@ def loops_around(f, nid):
 
 def r04e(rep, F):
     rep.rule('R04e', 'argmin pairs: where a loop keeps a running best cost ACC (if isCostBetterThan(x, ACC) { ACC = x; ITEM = '
-                     '...; }) the accumulator and every item selected with it live across the same loops: an accumulator '
+                     '...; }) the branch stores x (or the same cost read back through the selected item) into ACC, and the accumulator '
+                     'and every item selected with it live across the same loops: an accumulator '
                      'declared inside a loop that the selected item outlives is re-initialised per iteration, so the '
                      'reported item is no longer the one whose cost is reported')
     n = 0
@@ -543,11 +544,21 @@ def r04e(rep, F):
                         t, r = y['ch']
                     if t is not None:
                         stores.append((f.strip(t), r, y))
-                if not any(key(f, y[2]['ch'][0]) == acck and f.fp(y[1]) == xfp for y in stores):
+                if not stores or acck not in decl_at or not loops_around(f, i['id']):
                     continue
-                if acck not in decl_at or not loops_around(f, i['id']):
+                if not any(key(f, y[2]['ch'][0]) == acck for y in stores) and not any(
+                        y[0] is not None and y[0]['k'] in ('DeclRefExpr', 'MemberExpr') and not (f.nodes[y[1]].get('ty') or '').endswith('bool')
+                        for y in stores):
                     continue
                 n += 1
+                items = [nofp(f.fp(y[2]['ch'][0])) for y in stores if key(f, y[2]['ch'][0]) != acck]
+                sub = [xfp] + [xfp.replace(f.fp(y[1]), f.fp(y[2]['ch'][0])) for y in stores if key(f, y[2]['ch'][0]) != acck]
+                if not any(key(f, y[2]['ch'][0]) == acck and f.fp(y[1]) in sub for y in stores):
+                    rep.add('R04e', f.name, 'argmin#%s' % acc['name'], False, f.where(i),
+                            'the branch taken when %s is better than the running best %s selects %s but does not store that cost into %s: '
+                            'later candidates are compared with a stale bound and the item kept is not the best one'
+                            % (nofp(xfp), acc['name'], ', '.join(items) or 'an item', acc['name']))
+                    continue
                 acc_loops = set(loops_around(f, decl_at[acck]))
                 bad = None
                 for (t, r, y) in stores:
@@ -815,13 +826,14 @@ EDGE_SINKS = {  # callee suffix -> index of the edge-cost argument
     'aitstar::Vertex::setForwardParent': 1, 'eitstar::Vertex::setEdgeCost': 0,
     'BITstar::addEdge': 1, 'BITstar::replaceParent': 1, 'BITstar::Vertex::addParent': 1,
     'eitstar::State::setCurrentCostToCome': 0, 'aitstar::Vertex::setCostToComeFromStart': 0,
+    'FMT::Motion::setCost': 0, 'BFMT::BiDirMotion::setCost': 0,
 }
 COMBINE = ('::combineCosts', 'EITstar::combine', '::betterCost')
 TREE_GETTERS = ('::getCostToComeFromStart', '::getCurrentCostToCome', '::getCost', '::getEdgeCost', '::getEdgeInCost', '::getForwardEdgeCost')
 ESTIMATES = re.compile(r'Heuristic|BestEstimate|costToGo|CostToGo|LowerBound|lowerBound|stateCost|::distance$')
 
 
-def _all_defs(f):
+def _all_defs(f, F=None):
     out = {}
     for n in f.walk():
         if n['k'] == 'DeclStmt':
@@ -839,6 +851,16 @@ def _all_defs(f):
                 b = f.strip(t['ch'][0])
                 if b is not None and b['k'] == 'DeclRefExpr':
                     out.setdefault('%s#%d[]' % (b.get('name'), b.get('did')), []).append(n['ch'][1])
+        elif n['k'] in ('CXXMemberCallExpr', 'CallExpr') and F is not None:
+            # a local handed to a repo function by non-const reference is (also) defined by that function's stores to the parameter
+            gs = [g for g in F.by_name.get(n.get('callee') or '', []) if g.body]
+            if gs:
+                for i, a in enumerate(args(f, n)):
+                    an = f.strip(a)
+                    if an is not None and an['k'] == 'DeclRefExpr' and an.get('dk') != 'Parm' and i < len(gs[0].params):
+                        ty = gs[0].params[i].get('ty') or ''
+                        if ty.endswith('&') and not ty.startswith('const '):
+                            out.setdefault('%s#%d' % (an.get('name'), an.get('did')), []).append(('outparam', gs[0], i))
     return out
 
 
@@ -868,6 +890,17 @@ def cost_origins(F, f, nid, defs, seen, depth=0):
             return {'other:undefined local ' + n.get('name', '?')}
         out = set()
         for d in ds:
+            if isinstance(d, tuple):
+                g, i = d[1], d[2]
+                gk = '%s#%d' % (g.params[i]['name'], g.params[i]['did'])
+                if (g.key, gk) in seen:
+                    continue
+                gd = _all_defs(g, F)
+                for dd in gd.get(gk, []):
+                    if not isinstance(dd, tuple):
+                        o = cost_origins(F, g, dd, gd, seen | {(g.key, gk)}, depth + 1)
+                        out |= {x if not x.startswith('param:') else 'other:parameter of ' + g.name.split('::')[-1] for x in o}
+                continue
             out |= cost_origins(F, f, d, defs, seen, depth + 1)
         return out
     if (k == 'CXXOperatorCallExpr' and n.get('oop') == '[]') or k == 'ArraySubscriptExpr':
@@ -882,7 +915,7 @@ def cost_origins(F, f, nid, defs, seen, depth=0):
             return out or {'other:array never filled'}
         return {'other:subscript'}
     if k == 'MemberExpr':
-        if n.get('name') in ('cost', 'incCost', 'costToComeFromStart_', 'edgeCostFromForwardParent_', 'edgeCost_', 'currentCostToCome_'):
+        if n.get('name') in ('cost', 'incCost', 'costToComeFromStart_', 'edgeCostFromForwardParent_', 'edgeCost_', 'currentCostToCome_', 'accCost_'):
             return {'tree'}
         return {'other:field ' + str(n.get('name'))}
     if k in ('CXXMemberCallExpr', 'CallExpr'):
@@ -907,7 +940,7 @@ def cost_origins(F, f, nid, defs, seen, depth=0):
         for g in F.by_name.get(cal, []):
             if not g.body or (g.key, 'ret') in seen:
                 continue
-            gd = _all_defs(g)
+            gd = _all_defs(g, F)
             for r in g.walk():
                 if r['k'] == 'ReturnStmt' and r['ch']:
                     o = cost_origins(F, g, r['ch'][0], gd, seen | {(g.key, 'ret')}, depth + 1)
@@ -942,9 +975,11 @@ def r04i(rep, F):
                     sinks.append(('incCost', x['ch'][1], x))
                 elif t is not None and t['k'] == 'MemberExpr' and t.get('name') == 'cost' and (t.get('q') or '').rsplit('::', 1)[0] in crecs:
                     sinks.append(('cost', x['ch'][1], x))
+                elif t is not None and t['k'] == 'MemberExpr' and t.get('name') == 'accCost_':
+                    sinks.append(('accCost_', x['ch'][1], x))
         for (what, v, x) in sinks:
             if defs is None:
-                defs = _all_defs(f)
+                defs = _all_defs(f, F)
             o = cost_origins(F, f, v, defs, frozenset())
             role = 'edge-cost:%s#%d' % (what, len([1 for ob in rep.obl if ob['rule'] == 'R04i' and ob['function'] == f.name]))
             passthrough = {y for y in o if y.startswith('param:')}
@@ -961,7 +996,7 @@ def r04i(rep, F):
             else:
                 n += 1
                 rep.add('R04i', f.name, role, True, f.where(x), 'derived from ' + ', '.join(sorted(o)))
-    rep.require_count('R04i', 'edge-cost sinks with resolved provenance', n, 30)
+    rep.require_count('R04i', 'edge-cost sinks with resolved provenance', n, 38)
 
 
 def run(rep):
